@@ -32,6 +32,23 @@ pub enum Op {
     WriteThenFail(u8),
     /// emit effect `name:e`
     Emit(u8),
+    /// `kk[KEYS[i]] := v` — compound keys that are prefixes of one another
+    PutK(u8, u8),
+    /// delete `kk[KEYS[i]]`
+    DelK(u8),
+}
+
+/// Compound-key alphabet for the `kk` fact (prefixes of one another, empty components).
+pub fn key_alpha() -> Vec<Vec<Vec<u8>>> {
+    vec![
+        vec![],
+        vec![b"".to_vec()],
+        vec![b"a".to_vec()],
+        vec![b"a".to_vec(), b"".to_vec()],
+        vec![b"a".to_vec(), b"a".to_vec()],
+        vec![b"ab".to_vec()],
+        vec![b"a".to_vec(), b"ab".to_vec()],
+    ]
 }
 
 impl Op {
@@ -44,6 +61,8 @@ impl Op {
             Op::RequireAbsent(k) => out.extend([5, k]),
             Op::WriteThenFail(f) => out.extend([6, f]),
             Op::Emit(e) => out.extend([7, e]),
+            Op::PutK(k, v) => out.extend([8, k, v]),
+            Op::DelK(k) => out.extend([9, k]),
         }
     }
     pub fn decode_all(mut b: &[u8]) -> Option<Vec<Op>> {
@@ -57,6 +76,8 @@ impl Op {
                 5 => (Op::RequireAbsent(*rest.first()?), 1),
                 6 => (Op::WriteThenFail(*rest.first()?), 1),
                 7 => (Op::Emit(*rest.first()?), 1),
+                8 => (Op::PutK(*rest.first()?, *rest.get(1)?), 2),
+                9 => (Op::DelK(*rest.first()?), 1),
                 _ => return None,
             };
             v.push(op);
